@@ -543,7 +543,8 @@ def filter_call_sites(report):
     seq = parse("sequence.py")
     cls = next(n for n in seq.body if isinstance(n, ast.ClassDef) and n.name == "Sequence")
     sites = []
-    for fn in [n for n in cls.body if isinstance(n, ast.FunctionDef)]:
+    for fn in [n for n in cls.body if isinstance(n, ast.FunctionDef) and n.name in ("forge", "_prepareForOutputting")]:
+        before = len(sites)
         for n in ast.walk(fn):
             if isinstance(n, ast.Call) and ((isinstance(n.func, ast.Name) and n.func.id == "applyInverseRCFilter") or
                                             (isinstance(n.func, ast.Attribute) and n.func.attr == "applyInverseRCFilter")):
@@ -564,6 +565,10 @@ def filter_call_sites(report):
                 sr = ast.unparse(bound["SR"]) if "SR" in bound else "?"
                 args = [ast.unparse(bound[k]) if k in bound else "?" for k in ("kind", "f_cut", "order")]
                 sites.append(f'("{fn.name}", {dcv}, "{sr}", [' + ", ".join(f'"{a}"' for a in args) + "])")
+        if len(sites) == before:
+            # the call was moved elsewhere (a helper, say): this kernel cannot be located, the last known good text is kept
+            # and the correspondence check alone ties the compensation to the code
+            raise Unsupported(f"no applyInverseRCFilter call directly inside Sequence.{fn.name}")
     if not sites:
         raise Unsupported("no applyInverseRCFilter call found in Sequence")
     return ["/-- every call of ripasso.applyInverseRCFilter in class Sequence: (method, DC gain handed over, sample-rate expression,\n"
